@@ -1,12 +1,104 @@
 /-
 C12 reference machine: the LDM as a map `identifier -> stored object` with registration gating, expiry at
-maintenance runs and never-reused identifiers.  Written from the property text, not from the code: no row list, no
-collection loop, no removal by value.  Filtered / ordered requests are delegated to the query function (C13).
+maintenance passes and never-reused identifiers.
+
+Written from the property text and ETSI EN 302 895 (registration 6.2.1/6.3.1, data maintenance 5.3.2, ITS time =
+TS 102 894-2 TimestampIts), NOT from the code: it does not import the implementation model (`Store.lean`); it has its
+own vocabulary of operations, its own registration rules, clock conversion, lapse test, data object type, validation
+ladder and answer to unfiltered requests, all with literal constants.  That each of them agrees with what the
+implementation model uses (and with the constants regenerated from the repository) is PROVED in `StoreLemmas.lean`
+(`agree_*`), so a change on either side re-opens a proof.  Imported: only the data vocabulary (`Record`, `Loc`,
+`JVal`) and the query language of C13 (`Request`, `ReqOut`; filtered / ordered requests are delegated to
+`serviceQuery`, which is C13's subject).
+
+The machine has three parameters, so that one refinement theorem covers the code as it is and the repaired variants:
+  `drops l`    the area-of-maintenance rule: a maintenance pass discards an object stored with location `l`
+  `gated`      update / delete are refused for applications that are not registered providers
+  `reactive d` an accepted add runs a maintenance pass when `d` ms (monotonic) passed since the last reactive pass
+Every clause theorem of Props/C12.lean holds for ALL values of the parameters it does not mention.
 -/
-import FlexModel.Ldm.Store
+import FlexModel.Ldm.Filter
 
 namespace FlexModel.Ldm.Spec
-open FlexModel.Ldm Generated.Ldm
+open FlexModel.Ldm
+
+structure Params where
+  drops : Loc → Bool
+  gated : Bool
+  reactive : Int → Bool
+
+/-! ## rules transcribed from the standard -/
+
+/-- 2004-01-01T00:00:00 UTC in Unix seconds, and the leap seconds inserted since (ITS time is TAI based) -/
+def itsEpochS : Int := 1072915200
+def leapS : Int := 5
+
+/-- the LDM clock: whole UTC seconds, as ITS milliseconds -/
+def nowIts (utcMs : Int) : Int := (utcMs / 1000 - itsEpochS + leapS) * 1000
+
+/-- the validity of an object (seconds, counted from its timestamp) has lapsed at LDM time `now` -/
+def lapsed (now : Int) (r : Record) : Bool := decide (r.timestamp + 1000 * r.validity < now)
+
+/-- data object types (EN 302 895 annex B / ITS-AID of the facility messages) -/
+def typeNames : List (Nat × String) :=
+  [(1, "denm"), (2, "cam"), (3, "poi"), (4, "spatem"), (5, "mapem"), (6, "ivim"), (7, "ev-rsr"),
+   (8, "tistpgtransaction"), (9, "srem"), (10, "ssem"), (11, "evcsn"), (12, "saem"), (13, "rtcmem"), (14, "cpm"),
+   (15, "imzm"), (16, "vam"), (17, "dsm"), (18, "pcim"), (19, "pcvm"), (20, "payload"), (21, "pam")]
+
+/-- the identifiers 1 .. 21 are the known ITS-AIDs / data object types -/
+def known (a : Nat) : Bool := decide (1 ≤ a ∧ a ≤ 21)
+
+def typeOfKey (k : String) : Option Nat := (typeNames.find? (fun p => p.2 == k)).map (·.1)
+
+def firstType : List String → Option Nat
+  | [] => none
+  | k :: ks => match typeOfKey k with
+    | some t => some t
+    | none => firstType ks
+
+/-- the type of a data object is that of its first top-level key naming a data object type -/
+def typeOf (o : JVal) : Option Nat :=
+  match o with
+  | .dict kvs => firstType kvs.keys
+  | _ => none
+
+/-- a provider registration is accepted for a known ITS-AID with a non-empty permission list that covers its own
+type (DENM providers are always permitted) -/
+def providerOk (app : Nat) (perms : List Nat) : Bool :=
+  known app && !perms.isEmpty && (app == 1 || perms.contains app)
+
+/-- consumers likewise; DENM, SPATEM and MAPEM consumers are always permitted -/
+def consumerOk (app : Nat) (perms : List Nat) : Bool :=
+  known app && !perms.isEmpty && (perms.contains app || app == 1 || app == 4 || app == 5)
+
+/-- validation of a request (6.3.3): result code of the refusal, if any -/
+def refusal (registered : Bool) (q : Request) : Option Nat :=
+  if !registered then some 1
+  else if !(q.types.all known) then some 2
+  else if (match q.prio with | some p => decide (p < 0 ∨ 255 < p) | none => false) then some 3
+  else if q.orderBad then some 5
+  else if q.filterBad then some 4
+  else none
+
+/-- is a stored object of one of the requested types? -/
+def wanted (types : List Nat) (r : Record) : Bool :=
+  match typeOf r.obj with
+  | some t => types.contains t
+  | none => false
+
+/-! ## the machine -/
+
+inductive Op where
+  | regProvider (app : Nat) (perms : List Nat)
+  | deregProvider (app : Nat)
+  | regConsumer (app : Nat) (perms : List Nat)
+  | deregConsumer (app : Nat)
+  | add (app : Nat) (ts : Int) (loc : Loc) (obj : JVal) (validity : Int)
+  | update (app : Nat) (id : Nat) (obj : JVal)
+  | delete (app : Nat) (id : Nat)
+  | request (q : Request)
+  | maintain
+  | advance (ms : Nat)
 
 structure St where
   objs : Nat → Option Record
@@ -22,7 +114,7 @@ def St.init (utcMs monoMs : Int) : St :=
     utcMs := utcMs, monoMs := monoMs, lastGc := monoMs }
 
 inductive Out where
-  | refused
+  | refused (code : Nat)
   | done
   | id (n : Nat)
   | req (r : ReqOut)
@@ -33,65 +125,63 @@ def setAt {α : Type} (f : Nat → α) (i : Nat) (x : α) : Nat → α := fun j 
 /-- the stored objects in identifier order -/
 def listing (s : St) : List Record := (List.range s.next).filterMap s.objs
 
-/-- a maintenance run at LDM time `now` forgets exactly the objects whose validity has lapsed -/
-def collect (now : Int) (objs : Nat → Option Record) : Nat → Option Record :=
+/-- a maintenance pass at LDM time `now` forgets exactly the objects whose validity has lapsed and those the area
+rule discards -/
+def collect (P : Params) (now : Int) (objs : Nat → Option Record) : Nat → Option Record :=
   fun i => match objs i with
-    | some r => if expired now r then Option.none else some r
+    | some r => if lapsed now r || P.drops r.loc then Option.none else some r
     | Option.none => Option.none
 
-def step (s : St) : Op → St × Out
+/-- answer to a validated request: without filter and order exactly the stored objects of the requested types, in
+identifier order; filtered / ordered requests are C13's subject -/
+def answer (rows : List Record) (q : Request) : ReqOut :=
+  match q.filter, q.order with
+  | Option.none, Option.none => .ok (rows.filter (wanted q.types))
+  | _, _ => match serviceQuery rows q with
+    | .ok rs => .ok rs
+    | .error e => .exc e
+
+def step (P : Params) (s : St) : Op → St × Out
   | .regProvider app perms =>
-    if providerOk app perms then ({ s with prov := setAt s.prov app true }, .done) else (s, .refused)
+    if providerOk app perms then ({ s with prov := setAt s.prov app true }, .done) else (s, .refused 1)
   | .deregProvider app =>
-    if s.prov app then ({ s with prov := setAt s.prov app false }, .done) else (s, .refused)
+    if s.prov app then ({ s with prov := setAt s.prov app false }, .done) else (s, .refused 1)
   | .regConsumer app perms =>
-    if consumerOk app perms then ({ s with cons := setAt s.cons app true }, .done) else (s, .refused)
+    if consumerOk app perms then ({ s with cons := setAt s.cons app true }, .done) else (s, .refused 2)
   | .deregConsumer app =>
-    if s.cons app then ({ s with cons := setAt s.cons app false }, .done) else (s, .refused)
+    if s.cons app then ({ s with cons := setAt s.cons app false }, .done) else (s, .refused 1)
   | .add app ts loc obj validity =>
-    if !s.prov app then (s, .refused)
+    if !s.prov app then (s, .refused 1)
     else
       let r : Record := { appId := app, timestamp := ts, loc := loc, obj := obj, validity := validity }
       let objs1 := setAt s.objs s.next (some r)
-      -- reactive maintenance: at least the collection interval since the last reactive run
-      if s.monoMs - s.lastGc ≥ trashIntervalMs then
-        ({ s with objs := collect (nowIts s.utcMs) objs1, next := s.next + 1, lastGc := s.monoMs }, .id s.next)
+      if P.reactive (s.monoMs - s.lastGc) then
+        ({ s with objs := collect P (nowIts s.utcMs) objs1, next := s.next + 1, lastGc := s.monoMs }, .id s.next)
       else ({ s with objs := objs1, next := s.next + 1 }, .id s.next)
   | .update app id obj =>
-    if !s.prov app then (s, .refused)
+    if P.gated && !s.prov app then (s, .refused 1)
     else match s.objs id with
-      | Option.none => (s, .refused)
+      | Option.none => (s, .refused 1)
       | some r =>
-        if objTypeName r.obj = objTypeName obj then ({ s with objs := setAt s.objs id (some { r with obj := obj }) }, .done)
-        else (s, .refused)
+        if typeOf r.obj = typeOf obj then ({ s with objs := setAt s.objs id (some { r with obj := obj }) }, .done)
+        else (s, .refused 2)
   | .delete app id =>
-    if !s.prov app then (s, .refused)
+    if P.gated && !s.prov app then (s, .refused 1)
     else match s.objs id with
-      | Option.none => (s, .refused)
+      | Option.none => (s, .refused 1)
       | some _ => ({ s with objs := setAt s.objs id Option.none }, .done)
   | .request q =>
-    (s, .req (match requestRefusal (s.cons q.app) q with
+    (s, .req (match refusal (s.cons q.app) q with
       | some c => .refused c
-      | Option.none => match serviceQuery (listing s) q with
-        | .ok rs => .ok rs
-        | .error e => .exc e))
-  | .maintain => ({ s with objs := collect (nowIts s.utcMs) s.objs }, .none)
+      | Option.none => answer (listing s) q))
+  | .maintain => ({ s with objs := collect P (nowIts s.utcMs) s.objs }, .none)
   | .advance ms => ({ s with utcMs := s.utcMs + ms, monoMs := s.monoMs + ms }, .none)
 
-def run : St → List Op → St × List Out
+def run (P : Params) : St → List Op → St × List Out
   | s, [] => (s, [])
   | s, op :: ops =>
-    let (s1, o) := step s op
-    let (s2, os) := run s1 ops
+    let (s1, o) := step P s op
+    let (s2, os) := run P s1 ops
     (s2, o :: os)
-
-/-- how an interface answer of the implementation reads in the reference vocabulary -/
-def absOut : Op → FlexModel.Ldm.Out → Out
-  | .add .., .code n => if n < 0 then .refused else .id n.toNat
-  | .request _, .req r => .req r
-  | .maintain, _ => .none
-  | .advance _, _ => .none
-  | _, .code n => if n = 0 then .done else .refused
-  | _, _ => .none
 
 end FlexModel.Ldm.Spec
